@@ -1431,6 +1431,18 @@ func (c *Cache) handleCacheHit(
 	// the pre-Phase-3d !w.Internal() guard.
 	if depth := cnameChaseDepth(ctx); depth < maxCnameChaseDepth {
 		msg = c.additionalAnswer(withCnameChaseDepth(ctx, depth+1), msg)
+		// A chase that ran the request tree over its budget ends in a policy
+		// failure. The cached message carries no client OPT, so rebuild the
+		// reply from the request exactly as the miss path's writer does;
+		// otherwise an EDNS client is left without the Extended DNS Error.
+		if msg.Rcode == dns.RcodeServerFailure && middleware.RecursionWorkEnforcementError(ctx) != nil {
+			edeCode, edeText := middleware.RecursionWorkEDE(ctx)
+			do := false
+			if opt := req.IsEdns0(); opt != nil {
+				do = opt.Do()
+			}
+			msg = dnsutil.SetRcodeWithEDE(req, dns.RcodeServerFailure, do, edeCode, edeText)
+		}
 	}
 
 	_ = w.WriteMsg(msg)
